@@ -2,7 +2,10 @@ package main
 
 import (
 	"bytes"
+
 	"fmt"
+	"github.com/mosaicnetworks/babble/src/config"
+	hg "github.com/mosaicnetworks/babble/src/hashgraph"
 	"sync"
 	"sync/atomic"
 	"time"
@@ -18,7 +21,19 @@ func runLiveSoak(cs CaseSpec) *CaseResult {
 	res := newResult(cs)
 	prop := cs.Prop
 	n := int(cs.I("n", 4))
-	ln, err := newLiveNet(cs.Seed*131+int64(cs.Index), n, nil)
+	underRace := cs.Str("race", "") == "1"
+	var tune func(c *config.Config)
+	readerPause := 200 * time.Microsecond
+	if underRace {
+		// the race detector slows every node down 5-15x: with the 5 ms heartbeat
+		// of the plain runs, gossip goroutines pile up faster than they finish
+		tune = func(c *config.Config) {
+			c.HeartbeatTimeout = 100 * time.Millisecond
+			c.SlowHeartbeatTimeout = 500 * time.Millisecond
+		}
+		readerPause = 5 * time.Millisecond
+	}
+	ln, err := newLiveNet(cs.Seed*131+int64(cs.Index), n, tune)
 	if err != nil {
 		res.inconclusive("cannot create live network: " + err.Error())
 		return res
@@ -26,6 +41,7 @@ func runLiveSoak(cs CaseSpec) *CaseResult {
 	defer ln.shutdown()
 	ln.run()
 	total := int(cs.I("txs", 240))
+	pace := time.Duration(cs.I("pace_us", 0)) * time.Microsecond
 	var sent sync.Map
 	var sentCount int64
 	var wg sync.WaitGroup
@@ -60,7 +76,7 @@ func runLiveSoak(cs CaseSpec) *CaseResult {
 					readerViolation.Store(fmt.Sprintf("node %s reports a body for delivered block %d that differs from what was delivered plus the application's response (concurrent reader)", l.Peer.Moniker, d.Index))
 					return
 				}
-				time.Sleep(200 * time.Microsecond)
+				time.Sleep(readerPause)
 			}
 		}()
 	}
@@ -83,7 +99,11 @@ func runLiveSoak(cs CaseSpec) *CaseResult {
 				for x := range scratch {
 					scratch[x] = '#'
 				}
-				if k%8 == 7 {
+				if pace > 0 {
+					// paced submitters: the run spans many rounds, so blocks are
+					// delivered (and re-read by the readers) while submissions go on
+					time.Sleep(pace)
+				} else if k%8 == 7 {
 					time.Sleep(time.Millisecond)
 				}
 			}
@@ -99,7 +119,11 @@ func runLiveSoak(cs CaseSpec) *CaseResult {
 		return res
 	}
 	// quiescence: every node delivered every transaction (watchdog only)
-	deadline := time.Now().Add(60 * time.Second)
+	quiesce := 60 * time.Second
+	if underRace {
+		quiesce = time.Duration(cs.I("quiesce_s", 120)) * time.Second
+	}
+	deadline := time.Now().Add(quiesce)
 	done := false
 	for time.Now().Before(deadline) && !done {
 		done = true
@@ -174,7 +198,41 @@ func runLiveSoak(cs CaseSpec) *CaseResult {
 		}
 	}
 	if !done {
-		res.inconclusive("watchdog: the live network did not deliver every submitted transaction within 60 s")
+		// Decide on state, not on the clock: if every node is idle under its own
+		// lock (nothing pooled, nothing loaded and undetermined, not busy) and
+		// has been so for a while, and an accepted transaction is still missing,
+		// it will never be committed. Anything else is inconclusive.
+		diag, allIdle := liveDiag(ln)
+		if allIdle {
+			time.Sleep(2 * time.Second)
+			diag, allIdle = liveDiag(ln)
+		}
+		if allIdle && prop == "C05" {
+			missing := ""
+			for i, l := range ln.Nodes {
+				have := map[string]bool{}
+				for _, d := range l.App.DeliveredCopy() {
+					for _, tx := range d.Body.Transactions {
+						have[string(tx)] = true
+					}
+				}
+				sent.Range(func(k, _ interface{}) bool {
+					if !have[k.(string)] {
+						missing = fmt.Sprintf("transaction %q was accepted by SubmitTx but live node %d never commits it: every node is idle with empty pools", k.(string), i)
+						return false
+					}
+					return true
+				})
+				if missing != "" {
+					break
+				}
+			}
+			if missing != "" {
+				res.violate("C05", "C05:accepted-transaction-dropped", missing, map[string]interface{}{"engine": "live soak", "nodes": diag})
+				return res
+			}
+		}
+		res.inconclusive(fmt.Sprintf("watchdog: the live network did not deliver every submitted transaction within %v; nodes: %v", quiesce, diag))
 		return res
 	}
 	// C05: exactly once everywhere
@@ -222,3 +280,34 @@ func expectedStoredBodyNorm(d *Delivered) string {
 }
 
 var _ = bytes.Equal
+
+// liveDiag reads, under each node's own lock, what keeps a live network from
+// being quiescent.
+func liveDiag(ln *liveNet) ([]string, bool) {
+	out := []string{}
+	allIdle := true
+	for i, l := range ln.Nodes {
+		var line string
+		idle := false
+		l.Node.VerifLockCore(func() {
+			c := l.Node.VerifCore()
+			h := c.Hg()
+			pool := len(c.TransactionPool())
+			busy := c.Busy()
+			line = fmt.Sprintf("node %d state=%s busy=%v pool=%d loaded=%d undetermined=%d lastblock=%d round=%v", i, l.Node.GetState().String(), busy, pool, h.PendingLoadedEvents, len(h.UndeterminedEvents), h.Store.LastBlockIndex(), lastRoundOf(h))
+			idle = !busy && pool == 0 && h.PendingLoadedEvents == 0
+		})
+		txs := 0
+		for _, d := range l.App.DeliveredCopy() {
+			txs += len(d.Body.Transactions)
+		}
+		line += fmt.Sprintf(" delivered_txs=%d", txs)
+		out = append(out, line)
+		if !idle {
+			allIdle = false
+		}
+	}
+	return out, allIdle
+}
+
+func lastRoundOf(h *hg.Hashgraph) int { return h.Store.LastRound() }
